@@ -715,13 +715,12 @@ fn batch<E: Engine>(args: &Args) -> i32 {
         exit = 1;
         let case: E::Case = serde_json::from_value(f.case.clone()).unwrap_or_else(|e| harness_error(&format!("case round trip: {e}")));
         let isolate = key.ends_with("/abort") || key.ends_with("/hang") || f.tag != own_tag;
-        let (min_case, min_v, evals, from_size) = if minimised < 6 {
+        let (min_case, _min_v, evals, from_size) = if minimised < 6 {
             minimised += 1;
             minimise::<E>(&engine, args, &f.tag, &case, &f.violation, isolate, info.hang_secs)
         } else {
             (case.clone(), f.violation.clone(), 0, 0)
         };
-        let to_size = serde_json::to_string(&min_case).map(|s| s.len()).unwrap_or(0);
         let dir = replays_root().join(&args.property);
         let _ = std::fs::create_dir_all(&dir);
         let path = if f.index > u64::MAX / 2 {
@@ -729,6 +728,32 @@ fn batch<E: Engine>(args: &Args) -> i32 {
         } else {
             dir.join(format!("{}-s{}-i{}.json", sanitise(key), args.seed, f.index))
         };
+        // The minimised file must reproduce in a fresh process. If it does not, the system under test
+        // behaved differently on identical input (uninitialised memory, a data race): try again a few
+        // times, fall back to the case as first observed, and if even that does not fail again report the
+        // observation as what it is. (The harness itself is deterministic on the unchanged tree: det.sh.)
+        let attempt = |c: &E::Case, n: usize| -> Option<(usize, Violation)> {
+            for k in 0..n {
+                if let Some(v) = eval_in_subprocess::<E>(args, &f.tag, c, info.hang_secs) {
+                    if v.key == *key {
+                        return Some((k + 1, v));
+                    }
+                }
+            }
+            None
+        };
+        let (final_case, final_v, repro) = match attempt(&min_case, 1) {
+            Some((_, v)) => (min_case.clone(), v, "every evaluation so far".to_string()),
+            None => match attempt(&min_case, 6) {
+                Some((k, v)) => (min_case.clone(), v, format!("evaluation {} of the minimised case (earlier ones did not fail: the code under test is not deterministic)", k + 1)),
+                None => match attempt(&case, 6) {
+                    Some((k, v)) => (case.clone(), v, format!("evaluation {k} of the case as first observed (the minimised case did not fail again: the code under test is not deterministic)")),
+                    None => (case.clone(), f.violation.clone(), "NOT reproduced in 13 fresh evaluations; observed once in the batch: the code under test behaved differently on identical input".to_string()),
+                },
+            },
+        };
+        let min_v = final_v;
+        let to_size = serde_json::to_string(&final_case).map(|s| s.len()).unwrap_or(0);
         let replay = json!({
             "property": args.property,
             "engine": E::name(),
@@ -740,21 +765,13 @@ fn batch<E: Engine>(args: &Args) -> i32 {
             "finding_key": key,
             "violation": {"key": min_v.key, "detail": min_v.detail},
             "original_detail": f.violation.detail,
-            "case": serde_json::to_value(&min_case).unwrap(),
+            "reproduced": repro,
+            "case": serde_json::to_value(&final_case).unwrap(),
             "minimised_from": {"json_bytes": from_size, "to_json_bytes": to_size, "evaluations": evals},
         });
         std::fs::write(&path, serde_json::to_string_pretty(&replay).unwrap()).unwrap_or_else(|e| harness_error(&format!("write replay: {e}")));
-        // The minimised file must reproduce in a fresh process.
-        let confirmed = eval_in_subprocess::<E>(args, &f.tag, &min_case, info.hang_secs);
-        match confirmed {
-            Some(v) if v.key == *key => {}
-            other => {
-                harness_error(&format!(
-                    "non-reproducible: minimised case for {key} gave {:?} in a fresh process (replay {})",
-                    other.map(|v| v.key),
-                    path.display()
-                ));
-            }
+        if !repro.starts_with("every") {
+            println!("NOTE: {key}: {repro}");
         }
         println!("VIOLATION property={} replay={}", args.property, path.display());
         println!("  key={} occurrences={} detail={}", key, key_counts.get(key).copied().unwrap_or(1), min_v.detail);
@@ -1031,7 +1048,15 @@ fn replay<E: Engine>(args: &Args) -> i32 {
     let engine = E::new(&property, tier, seed);
     let hang = engine.info().hang_secs;
     // always in a fresh process, so aborts and hangs replay too
-    let r = eval_in_subprocess::<E>(&a2, &tag, &case, hang);
+    // a file recorded as not failing on every evaluation (non-deterministic code under test) gets more tries
+    let tries = if v["reproduced"].as_str().map(|s| !s.starts_with("every")).unwrap_or(false) { 12 } else { 1 };
+    let mut r = None;
+    for _ in 0..tries {
+        r = eval_in_subprocess::<E>(&a2, &tag, &case, hang);
+        if r.is_some() {
+            break;
+        }
+    }
     match r {
         Some(v) => {
             println!("VIOLATION property={} replay={}", property, path.display());
@@ -1053,10 +1078,12 @@ fn minimise<E: Engine>(engine: &E, args: &Args, tag: &str, case: &E::Case, viola
     // hangs cost `hang_secs` per confirming evaluation: keep that search short
     let budget: u64 = if violation.key.ends_with("/hang") { 40 } else if isolate { 600 } else { 4000 };
     let mut server = EvalServer::new(args, tag, hang_secs);
+    let t0 = std::time::Instant::now();
     'outer: loop {
         let cands = engine.shrink(&cur);
         for cand in cands {
-            if evals >= budget {
+            // The wall-clock bound only limits how far a replay is reduced, never whether it is reported.
+            if evals >= budget || t0.elapsed().as_secs() > 300 {
                 break 'outer;
             }
             evals += 1;
